@@ -5,8 +5,8 @@
    function objects; repeated evaluations of a condition with a static sampler return the same loss.          *)
 EXTENDS Conditions, TLC, TLCExt, Json, IOUtils
 Traces == JsonDeserialize(IOEnv.TRACE_FILE)
-VARIABLES tid, l, verdict, conds, lastloss
-vars == <<tid, l, verdict, conds, lastloss>>
+VARIABLES tid, l, verdict, conds, lastloss, scount
+vars == <<tid, l, verdict, conds, lastloss, scount>>
 T == Traces[tid]
 Ops == T.scenario.ops
 Ev == T.events
@@ -25,21 +25,41 @@ EvalClause(c, e) ==
     ELSE IF ~RecvOK(c, e) THEN "residual-arguments"
     ELSE IF ~RatEq(e.loss, LossTimesN(c, DictOf(c)), Len(c.rows)) THEN "loss-value"
     ELSE "ok"
-Init == /\ tid \in 1..Len(Traces) /\ l = 1 /\ conds = [i \in 1..6 |-> [kind |-> "none"]] /\ lastloss = [i \in 1..6 |-> <<0, 0>>]
+\* the rows a condition computes on NOW: its own data sampler's, the first draw of a shared static sampler, the next draw of
+\* a shared non-static sampler
+\* (sampler 3 is static with resample_interval 2: WHEN it resamples is property C15's business; the rows are those of the
+\* latest draw of the underlying sampler, as observed)
+RowsNow(c, e) == IF c.smp = 0 THEN c.rows ELSE IF c.smp = 3 THEN DrawOf(3, e.scounts[3])
+                 ELSE IF c.static THEN DrawOf(c.smp, 1) ELSE DrawOf(c.smp, scount[c.smp] + 1)
+SamplerClause(c, e) ==
+    IF c.smp = 0 THEN "ok"
+    ELSE IF c.smp = 3 THEN (IF e.scounts[3] >= 1 THEN "ok" ELSE "sampler-draw-count")
+    ELSE IF c.static /\ e.scounts[c.smp] > 1 THEN "static-sampler-drew-again"
+    ELSE IF ~c.static /\ e.scounts[c.smp] # scount[c.smp] + 1 THEN "sampler-draw-count"
+    ELSE "ok"
+Init == /\ tid \in 1..Len(Traces) /\ l = 1 /\ conds = [i \in 1..14 |-> [kind |-> "none"]] /\ lastloss = [i \in 1..14 |-> <<0, 0>>]
+        /\ scount = <<0, 0, 0>>
         /\ verdict = (IF "driver_error" \in DOMAIN Traces[tid] THEN "driver-error" ELSE "ok")
 Step == /\ l <= Len(Ev) /\ l' = l + 1 /\ tid' = tid
+        /\ scount' = Ev[l].scounts                                      \* resynchronise on the observation
         /\ LET op == Ops[l]  e == Ev[l] IN
-           IF op.a = "con"
+           IF op.a = "mv"
+           THEN /\ UNCHANGED <<conds, lastloss>>
+                /\ verdict' = (IF e.exc # "" THEN Bad("moving-static-data-failed:" \o e.exc)
+                               ELSE IF ~DictsIntact(e) THEN Bad("user-dictionary-modified-by-train-start") ELSE verdict)
+           ELSE IF op.a = "con"
            THEN /\ conds' = [conds EXCEPT ![op.c] = op]
                 /\ UNCHANGED lastloss
                 /\ verdict' = (IF e.exc # "" THEN Bad("construction-failed:" \o e.exc)
                                ELSE IF ~DictsIntact(e) THEN Bad("user-dictionary-modified-by-construction") ELSE verdict)
-           ELSE LET c == conds[op.c]  cl == EvalClause(c, e) IN
+           ELSE LET c0 == conds[op.c]
+                    c == [c0 EXCEPT !.rows = RowsNow(c0, e)]
+                    cl == IF e.exc = "" /\ SamplerClause(c0, e) # "ok" THEN SamplerClause(c0, e) ELSE EvalClause(c, e) IN
                 /\ UNCHANGED conds
                 /\ lastloss' = [lastloss EXCEPT ![op.c] = IF e.exc = "" THEN e.loss ELSE @]
                 /\ verdict' = (IF cl # "ok" THEN Bad(cl)
                                ELSE IF ~DictsIntact(e) THEN Bad("user-dictionary-modified-by-evaluation")
-                               ELSE IF c.static /\ lastloss[op.c] # <<0, 0>> /\ lastloss[op.c] # e.loss THEN Bad("static-condition-not-repeatable")
+                               ELSE IF c.static /\ c.smp # 3 /\ lastloss[op.c] # <<0, 0>> /\ lastloss[op.c] # e.loss THEN Bad("static-condition-not-repeatable")
                                ELSE verdict)
 Next == Step
 Fin == (l = Len(Ev) + 1) =>
